@@ -242,7 +242,9 @@ class ValuesProfile(FieldProfile):
         qv = st.extra.get("queueV")
         if qv:
             o = qv.pop(0)
-            return dict(o, out=out) if st.has(o["on"], "M") else {"op": "drop", "on": -1}
+            if o["op"] == "F.construct":
+                return dict(o, out=out) if st.has(o["on"], "M") else {"op": "drop", "on": -1}
+            return dict(o, out=out) if "out" in o else o
         if not meshes:
             return self.ensure_mesh(rng, st, cfg["max_cells"], cfg["max_subs"])
         r = rng.random()
@@ -285,6 +287,23 @@ class ValuesProfile(FieldProfile):
         mm = h.box.v
         dtype = h.meta.get("dtype")
         via = rng.choice(["update", "update", "array"])
+        if mm.subs and dtype in (None, "float") and rng.random() < 0.04:
+            # per-subregion values - the mesh is moved / scaled IN PLACE - per-subregion values again:
+            # the second assignment uses the subregions where they are now
+            ms = [m for m in meshes if st.h[m].box is h.box]
+            if ms:
+                names = [k for k, _ in mm.subs]
+                def dspec():
+                    d = {k: {"t": "const", "v": [float(rng.randint(1, 9))] * h.fm.nvdim if h.fm.nvdim > 1 else float(rng.randint(1, 9))} for k in names if rng.random() < 0.8}
+                    d["default"] = {"t": "const", "v": [0.0] * h.fm.nvdim if h.fm.nvdim > 1 else 0.0}
+                    return {"t": "dict", "d": d}
+                ax = rng.randrange(mm.region.ndim)
+                v = [0.0] * mm.region.ndim
+                v[ax] = float(mm.cell[ax]) * rng.choice([1, 2, -1, 3])
+                move = {"op": "translate", "on": ms[0], "v": v, "inplace": True, "out": None} if rng.random() < 0.6 else {"op": "scale", "on": ms[0], "factor": rng.choice([2, 0.5]), "ref": None, "inplace": True, "out": None}
+                st.extra.setdefault("queueV", []).extend([move, {"op": "F.update", "on": s, "spec": dspec(), "via": "update"}])
+                st.stats.probe("dict_move_mesh_dict")
+                return {"op": "F.update", "on": s, "spec": dspec(), "via": "update"}
         if rng.random() < cfg["p_fault"]:
             tgt = s if rng.random() < 0.85 else rng.choice(meshes)
             return draw_faulty(rng, st, tgt, st.h[tgt], via)
@@ -305,7 +324,13 @@ class ValuesProfile(FieldProfile):
             return {"op": "F.iter", "on": s}
         if r < 0.84:
             p1, p2 = draw_points(rng, mm, 2)
-            return {"op": "F.line", "on": s, "p1": p1, "p2": p2, "n": rng.choice([2, 3, 5, 9]), "scalar": rng.random() < 0.5}
+            if rng.random() < 0.45:
+                # an end point on the boundary of the region (the line starts or ends on a corner / face of the sample)
+                tgt = p2 if rng.random() < 0.6 else p1
+                for k in range(len(tgt)):
+                    if rng.random() < 0.6:
+                        tgt[k] = float(mm.region.pmin[k]) if rng.random() < 0.65 else float(mm.region.pmax[k])
+            return {"op": "F.line", "on": s, "p1": p1, "p2": p2, "n": rng.choice([2, 3, 5, 9, 8, 12]), "scalar": rng.random() < 0.5}
         if r < 0.92 and dtype in (None, "float"):
             return {"op": "F.setnorm", "on": s, "spec": {"t": "const", "v": rng.choice([1.0, 3.0, 1e-3])}}
         return {"op": "V.set", "on": s, "how": {"t": "array", "a": {"kind": "mask", "seed": rng.randrange(2**31), "p": 0.5}}}
